@@ -79,6 +79,97 @@ fn utf8_edgy(r: &mut Rng, len: usize) -> String {
     }
 }
 
+/// Text as it occurs in the field for the AVP kinds that carry text: dialled numbers in the usual
+/// notations, host and domain names, user names with realms, product strings, sentences; in
+/// several letter cases and with the separators a "normalising" peer would be tempted to remove.
+/// At most `max` octets (falls back to a short ASCII word when nothing fits).
+pub fn realistic_text(r: &mut Rng, attr: u16, max: usize) -> String {
+    let digits = |r: &mut Rng, n: usize| -> String { (0..n).map(|_| (b'0' + r.below(10) as u8) as char).collect() };
+    let wordn = |r: &mut Rng, n: usize| -> String { (0..n).map(|_| (b'a' + r.below(26) as u8) as char).collect() };
+    let word = |r: &mut Rng, lo: u64, hi: u64| -> String {
+        let n = r.range(lo, hi) as usize;
+        (0..n).map(|_| (b'a' + r.below(26) as u8) as char).collect()
+    };
+    let class = match attr {
+        21 | 22 | 23 => 0,
+        7 => 1,
+        30 => 2,
+        8 => 3,
+        _ => r.below(5),
+    };
+    let class = if r.chance(1, 5) { r.below(5) } else { class };
+    let mut t = match class {
+        0 => {
+            // E.164 / national numbers with separators
+            let (a, b, c) = (digits(r, 3), digits(r, 3), digits(r, 4));
+            match r.below(10) {
+                0 => format!("{}-{}-{}", a, b, c),
+                1 => format!("{}.{}.{}", a, b, c),
+                2 => format!("+1-{}-{}-{}", a, b, c),
+                3 => format!("+{}{}{}{}", r.range(1, 99), a, b, c),
+                4 => format!("({}) {}-{}", a, b, c),
+                5 => format!("00{}{}{}", a, b, c),
+                6 => format!("{} {} {}", a, b, c),
+                7 => format!("{}{}{}", a, b, c),
+                8 => format!("{}-{}", b, c),
+                _ => format!("tel:+{}-{}-{};ext={}", a, b, c, r.range(1, 999)),
+            }
+        }
+        1 => {
+            let (h, d) = (word(r, 2, 8), word(r, 3, 9));
+            match r.below(8) {
+                0 => format!("{}.{}.com", h, d),
+                1 => format!("{}{}.{}.net.", h, r.range(1, 99), d),
+                2 => format!("{}-{:02}", h.to_uppercase(), r.range(0, 99)),
+                3 => format!("{}.{}.{}.{}", r.range(1, 223), r.below(256), r.below(256), r.range(1, 254)),
+                4 => format!("[2001:db8::{:x}]", r.range(1, 0xffff)),
+                5 => format!("{}.{}.Example.ORG", h, d),
+                6 => "localhost".to_string(),
+                _ => format!("xn--{}.{}", h, d),
+            }
+        }
+        2 => {
+            let (u, d) = (word(r, 1, 8), word(r, 3, 9));
+            match r.below(7) {
+                0 => format!("{}@{}.com", u, d),
+                1 => format!("{}\\{}", d.to_uppercase(), u),
+                2 => format!("{}@{}", u, d.to_uppercase()),
+                3 => format!("{}/{}", d, u),
+                4 => format!("{}%{}@{}.net", u, d, d),
+                5 => format!("{}.{}@{}.example", u, u, d),
+                _ => u.to_uppercase(),
+            }
+        }
+        3 => {
+            let w = word(r, 3, 9);
+            match r.below(6) {
+                0 => format!("{} Systems, Inc.", w),
+                1 => format!("{}/{}.{}", w, r.below(20), r.below(100)),
+                2 => format!("{} (r) v{}.{}.{}", w.to_uppercase(), r.below(10), r.below(10), r.below(100)),
+                3 => "Cisco Systems, Inc.".to_string(),
+                4 => "Microsoft".to_string(),
+                _ => format!("{}-{}", w, digits(r, 4)),
+            }
+        }
+        _ => {
+            let w = word(r, 3, 9);
+            match r.below(6) {
+                0 => format!("No {} available.", w),
+                1 => format!("Error: {} (code {})", w, r.below(100)),
+                2 => format!("{}: {}\r\n", w, w),
+                3 => format!("  {}  ", w),
+                4 => format!("{} {}", w.to_uppercase(), w),
+                _ => format!("{}={};{}={}", w, r.below(100), w, digits(r, 3)),
+            }
+        }
+    };
+    if t.len() > max {
+        t = wordn(r, max.clamp(1, 4));
+        t.truncate(max);
+    }
+    t
+}
+
 fn utf8_plain(r: &mut Rng, len: usize) -> String {
     let mut s = String::with_capacity(len);
     while s.len() < len {
@@ -199,22 +290,30 @@ pub fn avp_of(r: &mut Rng, attr: u16, max_payload: usize) -> SAvp {
         Fmt::Fixed(n) => SBody::Bytes(r.bytes(n)),
         Fmt::VarBytes => {
             let n = var_len(r, maxp);
-            if r.chance(1, 5) {
+            if maxp >= 8 && r.chance(1, 12) {
+                SBody::Bytes(realistic_text(r, attr, maxp).into_bytes())
+            } else if r.chance(1, 5) {
                 SBody::Bytes(protocol_like(r, n))
             } else {
                 SBody::Bytes(r.bytes(n))
             }
         }
         Fmt::VarStr => {
-            let n = var_len(r, maxp);
-            SBody::Str(utf8_exact(r, n))
+            if maxp >= 8 && r.chance(1, 6) {
+                SBody::Str(realistic_text(r, attr, maxp))
+            } else {
+                let n = var_len(r, maxp);
+                SBody::Str(utf8_exact(r, n))
+            }
         }
         Fmt::Empty => SBody::Empty,
         Fmt::Result => {
             let code = if r.chance(2, 3) { r.range(0, 12) as u16 } else { r.u16b() };
             let err = if r.chance(2, 3) {
                 let et = r.pick(&ERROR_TYPES).0;
-                let msg = if r.chance(1, 2) && maxp > 4 {
+                let msg = if maxp > 24 && r.chance(1, 8) {
+                    Some(realistic_text(r, attr, maxp - 4))
+                } else if r.chance(1, 2) && maxp > 4 {
                     let n = var_len(r, maxp - 4);
                     Some(utf8_exact(r, n))
                 } else {
@@ -228,7 +327,9 @@ pub fn avp_of(r: &mut Rng, attr: u16, max_payload: usize) -> SAvp {
         }
         Fmt::Version => SBody::Version { ver: r.u8(), rev: r.u8() },
         Fmt::Q931 => {
-            let adv = if r.chance(1, 2) && maxp > 3 {
+            let adv = if maxp > 24 && r.chance(1, 8) {
+                Some(realistic_text(r, attr, maxp - 3))
+            } else if r.chance(1, 2) && maxp > 3 {
                 let n = var_len(r, maxp - 3);
                 Some(utf8_exact(r, n))
             } else {
@@ -274,6 +375,13 @@ pub fn any_avp(r: &mut Rng, max_payload: usize) -> SAvp {
 
 /// Control message in the encodable domain: first AVP (if any) a Message Type; total <= 65535.
 pub fn control(r: &mut Rng, max_avps: usize, max_payload: usize) -> SControl {
+    if max_avps >= 4 && max_payload >= 40 {
+        match r.below(16) {
+            0 | 1 => return scenario(r, max_payload),
+            2 if !super::small_sizes() => return wide(r),
+            _ => {}
+        }
+    }
     let n = match r.below(8) {
         0 => 0,
         1 => 1,
@@ -283,6 +391,99 @@ pub fn control(r: &mut Rng, max_avps: usize, max_payload: usize) -> SControl {
     let mut total = 12usize;
     for i in 0..n {
         let a = if i == 0 { avp_of(r, 0, max_payload) } else { any_avp(r, max_payload) };
+        let sz = encode::payload(&a).len() + 6;
+        if total + sz > 65535 {
+            break;
+        }
+        total += sz;
+        avps.push(a);
+    }
+    SControl { length: total as u16, tunnel: r.u16b(), session: r.u16b(), ns: r.u16b(), nr: r.u16b(), avps }
+}
+
+/// G-scenario: a control message as RFC 2661 section 6 composes it - the message type's mandatory
+/// AVPs, a random subset of its optional ones, in the RFC's order or shuffled - and, in one case in
+/// three, with *coincidences*: all octet-string fields share one 16-octet value (cut to size for
+/// the fixed-size kinds), all 16-, 32- and 64-bit fields share one number, all texts are equal.
+/// Independent generators never make a Challenge equal to a Challenge Response or the Tx speed
+/// equal to the Rx speed; real peers (and attackers reflecting a value) do.
+pub fn scenario(r: &mut Rng, max_payload: usize) -> SControl {
+    // (message type, mandatory, optional)
+    const T: [(u16, &[u16], &[u16]); 14] = [
+        (1, &[2, 7, 3, 9], &[4, 10, 11, 5, 6, 8]),
+        (2, &[2, 7, 3, 9], &[4, 10, 11, 13, 6, 8]),
+        (3, &[], &[13]),
+        (4, &[9, 1], &[]),
+        (6, &[], &[]),
+        (7, &[14, 15, 16, 17, 18, 19, 21], &[23]),
+        (8, &[14], &[25]),
+        (9, &[24, 19], &[38, 39]),
+        (10, &[14, 15], &[18, 25, 22, 21, 23]),
+        (11, &[14], &[]),
+        (12, &[24, 19], &[26, 27, 28, 29, 30, 31, 32, 33, 37, 38, 39]),
+        (14, &[1, 14], &[12]),
+        (15, &[34], &[]),
+        (16, &[35], &[]),
+    ];
+    let (mt, mand, opt) = *r.pick(&T);
+    let mut attrs: Vec<u16> = mand.to_vec();
+    for a in opt.iter() {
+        if r.chance(2, 3) {
+            attrs.push(*a);
+        }
+    }
+    if r.chance(1, 6) {
+        attrs.push(36);
+    }
+    if r.chance(1, 4) {
+        // any order
+        for i in (1..attrs.len()).rev() {
+            let j = r.below(i as u64 + 1) as usize;
+            attrs.swap(i, j);
+        }
+    }
+    let maxp = max_payload.min(MAX_PAYLOAD);
+    let mut avps = vec![SAvp { attr: 0, hidden: false, body: SBody::U16(mt) }];
+    for a in attrs {
+        let mut v = avp_of(r, a, maxp.min(64));
+        if let SBody::Result { code, .. } = &mut v.body {
+            *code = if mt == 4 { r.range(1, 7) as u16 } else { r.range(1, 11) as u16 };
+        }
+        avps.push(v);
+    }
+    if r.chance(1, 3) {
+        let master = r.bytes(16);
+        let num = r.u64b();
+        let text = realistic_text(r, 21, maxp.min(40));
+        for v in avps.iter_mut().skip(1) {
+            let fmt = format_of(v.attr);
+            match (&mut v.body, fmt) {
+                (SBody::Bytes(b), Some(Fmt::Fixed(n))) => *b = master[..n.min(16)].iter().cloned().cycle().take(n).collect(),
+                (SBody::Bytes(b), _) if maxp >= 16 => *b = master.clone(),
+                (SBody::U16(x), Some(Fmt::U16)) => *x = num as u16,
+                (SBody::U32(x), _) => *x = num as u32,
+                (SBody::U64(x), _) => *x = num,
+                (SBody::Str(t), _) => *t = text.clone(),
+                _ => {}
+            }
+        }
+    }
+    let total = 12 + avps.iter().map(|a| encode::payload(a).len() + 6).sum::<usize>();
+    SControl { length: total as u16, tunnel: r.u16b(), session: r.u16b(), ns: r.u16b(), nr: r.u16b(), avps }
+}
+
+/// A control message with many small AVPs (33..400, rarely up to 6000): counts beyond any inline
+/// capacity (8, 16, 32, 64, 128, 256 entries) an implementation might keep per message.
+pub fn wide(r: &mut Rng) -> SControl {
+    let n = match r.below(12) {
+        0 => r.range(400, 6000) as usize,
+        1 => *r.pick(&[33usize, 65, 129, 257, 513, 1025]),
+        _ => r.range(33, 400) as usize,
+    };
+    let mut avps = vec![avp_of(r, 0, 8)];
+    let mut total = 12 + 8;
+    for _ in 1..n {
+        let a = any_avp(r, 8);
         let sz = encode::payload(&a).len() + 6;
         if total + sz > 65535 {
             break;
